@@ -59,6 +59,7 @@ Check(n, down) ==
 Run(n) == Check(n, {}) /\ UNCHANGED <<ran, round>>
 \* ... and the round discipline of the bounded form: every current holder checks once per round
 RoundRun(n) == /\ n \notin ran
+               /\ round <= MaxRounds               \* (bounds the counter; one more round is watched)
                /\ Check(n, {})
                /\ LET ran1 == ran \cup {n} IN
                   IF holders' \subseteq ran1 THEN ran' = {} /\ round' = round + 1
